@@ -321,6 +321,12 @@ fn monitor(op: &str, identity: Identity, presents: bool, has_provider: bool, acc
 
 pub fn run(ctx: &Ctx) -> (Acc, Report) {
     let mut acc = ctx.acc();
+    // histories first (single-threaded, fixed order): all sequences of up to 3 requests over all four signature schemes and
+    // anonymous requests on one service instance - what was verified (or refused) before must not leak into the next request
+    let (hist_n, hist_steps) = {
+        use crate::props::authhist::Scheme;
+        crate::props::authhist::explore(&mut acc, "C07", &[Scheme::V4Header, Scheme::V4Presigned, Scheme::V2Header, Scheme::V2Presigned, Scheme::Anonymous], ctx.tier.pick(2, 3))
+    };
     let bases = sdk::base_requests().clone();
     let n_ops = bases.len();
     let t0 = amz_date_to_epoch(DATE).unwrap();
@@ -412,7 +418,7 @@ pub fn run(ctx: &Ctx) -> (Acc, Report) {
         level: "exploration",
         rule: format!("full product: {n_ops} operations (SDK-encoded base request) + the POST form x 16 request classes (anonymous; valid V4 header/presigned, V2 header/presigned; each with a wrong signature; unknown key; expired; duplicated, malformed Authorization) x provider {{none, present}} x access hook {{none, allow, deny, deny-by-operation, deny-in-typed-hook, default}} x route {{none, match-all, never, match-all-open}} x host parser {{none, single}}. Oracle: reference monitor over the ordered event log of recording S3Auth / S3Access::check / typed hook / S3Route / backend. Every case is non-trivial; distinct by id."),
         exhaustive: true,
-        extra: json!({"operations": n_ops}),
+        extra: json!({"operations": n_ops, "histories": hist_n, "history_requests_executed": hist_steps, "history_rule": "all sequences of length 1..2 (thorough 3) over 25 requests (four signature schemes x two identities x honest / signed with the other identity's secret x scopes, and an anonymous request) on one service instance, single-threaded, fixed order; each verdict and the identity shown = the reference verdict of that request alone"}),
         assumptions: vec![
             "requests are those aws-sdk-s3 encodes for base inputs, re-signed by the reference signers (validated on the documentation vectors)".into(),
             "a duplicated Authorization header is modelled as presenting no attributable identity: the adapter may treat it as anonymous or refuse it, never attribute it".into(),
